@@ -22,7 +22,7 @@ pub fn info() -> PropInfo {
         id: "C10",
         run,
         replay,
-        rule: "cases = strings and numeric character references. Enumerated: every string up to length N over {< > & ' \" # x ; 0 9 a A e-acute space}; ALL code points 0..0x110000 and 0x100 beyond in five spellings; a table of malformed references; generated: proptest Unicode strings rich in specials and reference look-alikes. Oracles: unescape(f(s)) == s for f in escape/partial_escape/minimal_escape, f(s) contains none of the characters that level removes and no '&' that does not start one of the five entities or a character reference, a string without '&' unescapes to itself borrowed, unescape(s) for arbitrary s equals an independent reference implementation (value or error), valid non-zero scalar -> exactly that char, everything else -> Err. Non-trivial = the string contains at least one of < > & ' \" / the code point is a valid scalar. An offset sweep places every special / reference form after 0..=130 plain bytes (ASCII or two-byte characters) and before 0..=40 more.",
+        rule: "cases = strings and numeric character references. Enumerated: every string up to length N over {< > & ' \" # x ; 0 9 a A e-acute space}; ALL code points 0..0x110000 and 0x100 beyond in five spellings; a table of malformed references; generated: proptest Unicode strings rich in specials and reference look-alikes. Oracles: unescape(f(s)) == s for f in escape/partial_escape/minimal_escape, f(s) contains none of the characters that level removes and no '&' that does not start one of the five entities or a character reference, a string without '&' unescapes to itself borrowed, unescape(s) for arbitrary s equals an independent reference implementation (value or error), valid non-zero scalar -> exactly that char, everything else -> Err. Non-trivial = the string contains at least one of < > & ' \" / the code point is a valid scalar. An offset sweep places every special / reference form after 0..=130 plain bytes (ASCII or two-byte characters) and before 0..=40 more. Every reference body of up to 5 characters over {0,1,9,a,F,x,X,+,-,blank,_} after `&#` and after `&#x` is enumerated against the reference unescaper, and every upper/lower-case spelling of the five predefined names.",
         assumptions: &["built without the escape-html feature: the entity set is the five XML entities", "only a lowercase 'x' introduces a hexadecimal reference (XML)"],
         level: "exploration",
         variants: &["full"],
@@ -254,6 +254,39 @@ fn run(ctx: &Ctx) {
             1 => format!("x{}y", m),
             _ => format!("&lt;{}&#x20;", m),
         }))
+    }, check);
+    // every reference body of up to 5 characters over digits, hex letters, both 'x', signs, blank and
+    // '_' - after "&#" and after "&#x" (signs / blanks / separators anywhere, not only in front)
+    const BODY: &[char] = &['0', '1', '9', 'a', 'F', 'x', 'X', '+', '-', ' ', '_'];
+    let nbody = crate::gen::exh_count(BODY.len() as u64, 5);
+    ctx.run_indexed("exh-reference-bodies", nbody * 2, |i| {
+        let mut k = i / 2;
+        // index -> string over BODY (shortest first)
+        let mut len = 0u32;
+        let mut block = 1u64;
+        while k >= block {
+            k -= block;
+            block *= BODY.len() as u64;
+            len += 1;
+        }
+        let mut body = String::new();
+        for _ in 0..len {
+            body.push(BODY[(k % BODY.len() as u64) as usize]);
+            k /= BODY.len() as u64;
+        }
+        Some(Case::Str(format!("{}{};", if i % 2 == 0 { "&#" } else { "&#x" }, body)))
+    }, check);
+    // every upper/lower-case spelling of the five predefined names: only the all-lower-case one exists
+    ctx.run_indexed("predefined-names-in-every-case-spelling", 4 + 4 + 8 + 16 + 16, |i| {
+        let (name, k) = match i {
+            0..=3 => ("lt", i),
+            4..=7 => ("gt", i - 4),
+            8..=15 => ("amp", i - 8),
+            16..=31 => ("apos", i - 16),
+            _ => ("quot", i - 32),
+        };
+        let spelled: String = name.chars().enumerate().map(|(j, c)| if k >> j & 1 == 1 { c.to_ascii_uppercase() } else { c }).collect();
+        Some(Case::Str(format!("a&{};b", spelled)))
     }, check);
     // offset sweep: every special / reference form after a run of 0..=130 plain bytes and before a
     // run of 0..=40 (block-wise scanners, copy offsets), with two kinds of plain runs
